@@ -21,13 +21,13 @@ def scenarios(n, variant):
     return r, out
 
 def desc(b):
-    return " ; ".join("%d:%s/%s/%s/%s" % (i + 1, c["tclass"], c["decision"], c["setup"], c["tbeh"]) for i, c in enumerate(b["sc"]))
+    return " ; ".join("%d:%s/%s/%s/%s%s" % (i + 1, c["tclass"], c["decision"], c["setup"], c["tbeh"], "/PF-TYPE" if c.get("gt") == "pf" else "") for i, c in enumerate(b["sc"]))
 
 def judge(b, e):
     """property predicates on what the real principal / target did"""
     out = []
     d = desc(b)
-    cb = e["cb"] or []; fwd = e["fwd"] or []; stored = e["stored"] or []; ans = e["ans"] or []
+    cb = e["cb"] or []; fwd = e["fwd"] or []; stored = e["stored"] or []; ans = [a or [] for a in (e["ans"] or [])]
     for f in fwd:
         k, seq, url, mtype, cur = f
         if mtype != 2:
@@ -46,6 +46,14 @@ def judge(b, e):
     if len(set(ks)) != len(ks):
         out.append("an intent was forwarded more than once: %s | %s" % (ks, d))
     for i, a in enumerate(ans):
+        if i >= len(b["sc"]):
+            continue
+        if i > 0 and any(c.get("gt") == "pf" for c in b["sc"][:i]):
+            # the principal gave up on the connection with the unusable request: nothing after it is answered
+            if a and not all(x.startswith("none") or x.startswith("writefail") for x in a):
+                if "confirm" in a and (i + 1) not in stored:
+                    out.append("request %d was confirmed to the delegate although the target did not store a grant for it | %s" % (i + 1, d))
+            continue
         if len(a) != 1 or a[0] not in ("confirm", "deny"):
             out.append("request %d got %d answers (%s) instead of exactly one | %s" % (i + 1, len([x for x in a if not x.startswith("none")]), ",".join(a), d))
         if "confirm" in a and (i + 1) not in stored:
@@ -101,7 +109,7 @@ def run(v, tier, replay):
                 # conformance with the model's outputs
                 m_cb = [[x[0], x[1]] for x in b["cb"]]; c_cb = [[x[0], x[1]] for x in (e["cb"] or [])]
                 m_fwd = list(b["fwd"]); c_fwd = [x[0] for x in (e["fwd"] or [])]
-                m_ans = [list(a) for a in b["ans"]]; c_ans = [list(a) for a in e["ans"]]
+                m_ans = [list(a) for a in b["ans"]]; c_ans = [[x for x in a if not (x.startswith("none") or x.startswith("writefail"))] for a in [x or [] for x in e["ans"]]]
                 if (m_cb, m_fwd, sorted(b["stored"]), m_ans) != (c_cb, c_fwd, sorted(e["stored"] or []), c_ans):
                     unexplained.append("%s: model cb=%s fwd=%s stored=%s ans=%s; code cb=%s fwd=%s stored=%s ans=%s" % (desc(b), m_cb, m_fwd, sorted(b["stored"]), m_ans, c_cb, c_fwd, sorted(e["stored"] or []), c_ans))
                 else:
